@@ -269,12 +269,31 @@ fn resplit(names: &[String], sel: u16, rev: bool) -> Vec<String> {
   v
 }
 
+/// A listing that differs from `names` in exactly one character of one name, replaced by its sibling (a->b->c->a,
+/// 0xE8<->0xE9): a different name set that is as close to the original as a listing can be.
+fn near_miss(names: &[String], sel: u16) -> Vec<String> {
+  let mut v: Vec<String> = names.to_vec();
+  if v.is_empty() { return v; }
+  // Prefer a name that contains one of the non-UTF-8 bytes.
+  let i = v.iter().position(|n| n.contains('\u{e8}') || n.contains('\u{e9}')).filter(|_| sel % 3 != 0).unwrap_or((sel as usize / 3) % v.len());
+  let kind = v[i].chars().last().filter(|c| *c == '@' || *c == '/');
+  let mut cs: Vec<char> = entry_name(&v[i]).chars().collect();
+  let j = cs.iter().position(|c| *c == '\u{e8}' || *c == '\u{e9}').unwrap_or((sel as usize / 5) % cs.len().max(1));
+  if let Some(c) = cs.get_mut(j) { *c = match *c { 'a' => 'b', 'b' => 'c', 'c' => 'a', '\u{e8}' => '\u{e9}', '\u{e9}' => '\u{e8}', x => x }; }
+  let mut n: String = cs.into_iter().collect();
+  if let Some(k) = kind { n.push(k); }
+  v[i] = n;
+  let mut seen = std::collections::BTreeSet::new();
+  v.retain(|n| seen.insert(entry_name(n).to_string()));
+  v
+}
+
 pub fn strategy() -> impl Strategy<Value=FCase> {
   (pstate(), pstate(), 0u32..10, prop_oneof![Just(FCk::Exists), Just(FCk::Modified), Just(FCk::Modified), Just(FCk::Hash), Just(FCk::Hash)], 0u32..3, 0u32..3, any::<u16>(), any::<bool>(), 0u8..4, (0u8..5, 0u8..5))
     .prop_map(|(s1, s2, touch, ck, t1, t2, sel, rev, derive, (n1, n2))| {
       // A quarter of the directory cases check a re-split listing against the original.
       let s2 = match (&s1, derive) {
-        (PState::Dir { names }, 0) if !names.is_empty() => PState::Dir { names: resplit(names, sel, rev) },
+        (PState::Dir { names }, 0) if !names.is_empty() => PState::Dir { names: if sel % 2 == 0 { resplit(names, sel / 2, rev) } else { near_miss(names, sel / 2) } },
         // A quarter of the file cases change the content but not the length (and, half of the time, not the mtime).
         (PState::File { len, seed }, 0) if *len > 0 => PState::File { len: *len, seed: seed.wrapping_add(1 + (sel % 3) as u8) % 4 },
         _ => s2,
@@ -396,7 +415,7 @@ pub fn seq_strategy() -> impl Strategy<Value=FSeq> {
         if let Some(prev) = steps.iter().rev().find_map(|p| p.to.clone().map(|t| (t, (p.mtime, p.nanos)))) {
           match prev {
             (PState::File { len, seed }, mt) if len > 0 => { st.to = Some(PState::File { len, seed: (seed + 1 + (sel / 3 % 3) as u8) % 4 }); if sel % 2 == 0 { st.mtime = mt.0; st.nanos = mt.1; } }
-            (PState::Dir { names }, _) if !names.is_empty() => { st.to = Some(PState::Dir { names: resplit(&names, sel / 3, sel % 2 == 0) }); }
+            (PState::Dir { names }, _) if !names.is_empty() => { st.to = Some(PState::Dir { names: if sel % 2 == 0 { resplit(&names, sel / 3, sel % 4 == 0) } else { near_miss(&names, sel / 3) } }); }
             _ => {}
           }
         }
